@@ -212,6 +212,9 @@ def run(ctx):
         ob.note('callers of the bundled ripemd160: %s' % sorted({(cs.caller.qual[len(PKG) + 1:] if cs.caller is not None else '<module level>')
                                                                   for cs in callers}))
         ob.evaluations += 1
+    # the row builders pair each address with the key it belongs to - also when the nodes arrive as a one-shot iterable
+    from .C06 import check_rows_onepass
+    check_rows_onepass(ctx, 'C05.ONEPASS(=C06)')
     _ripemd(ctx)
 
 
@@ -225,6 +228,13 @@ def _ripemd(ctx):
             v = ev.module_const('ripemd', name)
             same_term(ob, v, T.lst([T.const(x) for x in spec]), 'table %s equals its generating structure '
                       '(rho/pi permutations, shift table, integer roots)' % name, mi.relpath)
+    # representation-independent step check (any loop nest, inlined f / rotation): always run
+    from .rmd import check_compress_generic
+    check_compress_generic(ctx, 'C05.RMD-STEPS', lenient=('fi' in mi.functions and 'rol' in mi.functions))
+    if 'fi' not in mi.functions or 'rol' not in mi.functions:
+        # the helper-function form of the rounds is not there: C05.RMD-STEPS above is the whole round check
+        _ripemd_pad(ctx)
+        return
     ffi = p.get_function('ripemd.fi')
     with ctx.obligation('C05.RMD-F', 'ripemd.fi', None, ffi.where) as ob:
         ok_ops = (ast.BitAnd, ast.BitOr, ast.BitXor, ast.Invert)
@@ -383,6 +393,11 @@ def _ripemd(ctx):
             exp = T.tup([T.add(T.add(hs[1], cl), dr), T.add(T.add(hs[2], dl), er), T.add(T.add(hs[3], el), ar),
                          T.add(T.add(hs[4], al), br), T.add(T.add(hs[0], bl), cr)])
             same_term(ob, res, exp, 'final combination of chaining value and the two lines', fc.where)
+    _ripemd_pad(ctx)
+
+
+def _ripemd_pad(ctx):
+    p = ctx.p
     # ---- padding, length, block schedule, output
     fr_ = p.get_function('ripemd.ripemd160')
     with ctx.obligation('C05.RMD-PAD', 'ripemd.ripemd160', None, fr_.where) as ob:
